@@ -998,6 +998,10 @@ def readGraph(input_file,
         except UnicodeEncodeError as errmsg:
             raise ValueError(
                 "[Non-ascii chars in GML file] {} ".format(errmsg))
+        except (TypeError, IndexError, AttributeError, KeyError) as errmsg:
+            # malformed input on which networkx's parser trips, or a file
+            # of the wrong kind (undirected graph read as directed)
+            raise ValueError("[Parse error in GML input] {} ".format(errmsg))
 
     elif file_format == 'kthlist' and graph_type == 'bipartite':
 
